@@ -79,7 +79,7 @@ enum { E_ENTER, E_OK, E_FAIL, E_UNL };
 static struct { int th, ev; } lg[4096]; static volatile int nlg;
 static void logev(int th, int ev) { int i = __sync_fetch_and_add(&nlg, 1); if (i < 4096) { lg[i].th = th; lg[i].ev = ev; } }
 
-static int st_sleeps, st_waited_sleeps, st_bad, st_tl_to, st_tl_ok, st_tj_to, st_tj_ok, st_carry;
+static int st_sleeps, st_waited_sleeps, st_bad, st_tl_to, st_tl_ok, st_tj_to, st_tj_ok, st_carry, st_rem;
 
 static void * target_body(void * a) { int k = (int)(intptr_t)a; for (int i = 0; i < k; i++) { myth_yield(); mv_progress(); } return (void *)0x77; }
 static void * sibling_body(void * a) { (void)a; while (!Z.stop_sibling) { Z.sibling_cnt++; mv_spin(US_GATE); myth_yield(); } return 0; }
@@ -93,7 +93,7 @@ static void * script(void * a) {
     case K_NANOSLEEP: case K_USLEEP: case K_SLEEP: {
       long rs, rns; int rc;
       long sib0 = Z.sibling_cnt;
-      if (o->kind == K_NANOSLEEP) { struct timespec rq = { o->a, o->b }; rs = o->a; rns = o->b; rc = myth_nanosleep(&rq, 0); }
+      if (o->kind == K_NANOSLEEP) { struct timespec rq = { o->a, o->b }, rm = { 77, 77 }; rs = o->a; rns = o->b; rc = myth_nanosleep(&rq, o->k == 0 ? 0 : o->k == 1 ? &rm : &rq); if (o->k) st_rem++; }
       else if (o->kind == K_USLEEP) { rs = o->a / 1000000; rns = (o->a % 1000000) * 1000; rc = myth_usleep((useconds_t)o->a); }
       else { rs = o->a; rns = 0; rc = (int)myth_sleep((unsigned)o->a); }
       if (rc != 0) mt_fail("%s(%ld,%ld) returned %d", kname[o->kind], o->a, o->b, rc);
@@ -105,8 +105,9 @@ static void * script(void * a) {
       if (r->reads >= 3) { st_waited_sleeps++; if (Z.W == 1 && Z.sibling && Z.T == 1 && Z.sibling_cnt == sib0) mt_fail("one worker: a runnable sibling did not run during a sleep that polled the clock %ld times", r->reads); }
       break; }
     case K_BADSLEEP: {
-      struct timespec rq = { o->a, o->b };
-      int rc = myth_nanosleep(&rq, 0);
+      struct timespec rq = { o->a, o->b }, rm = { 77, 77 };
+      int rc = myth_nanosleep(&rq, o->k == 0 ? 0 : o->k == 1 ? &rm : &rq);   /* the remaining-time argument: none, a separate object, or the request itself (nanosleep(&ts, &ts)) */
+      if (o->k) st_rem++;
       if (rc != EINVAL) mt_fail("nanosleep({%ld,%ld}) returned %d, expected EINVAL", o->a, o->b, rc);
       if (r->reads != 0) mt_fail("nanosleep with a malformed duration read the clock %ld times", r->reads);
       st_bad++; break; }
@@ -191,7 +192,8 @@ void scen_c20(mt_case * c) {
       case K_TIMEDLOCK: case K_TIMEDLOCK_FREE: case K_TIMEDJOIN: o->a = (rd_below(r, 4) == 0) ? -1 : ticks; o->b = delta; o->k = (int)rd_below(r, 5); if (o->kind == K_TIMEDJOIN && rd_below(r, 4) == 0) o->b = 7; break;
       case K_HOLD: o->k = (int)rd_below(r, 6); break;
       }
-      mt_desc(" %s(%ld,%ld,y%d)", kname[o->kind], o->a, o->b, o->k);
+      if (o->kind == K_NANOSLEEP || o->kind == K_BADSLEEP) o->k = (int)((ticks * 5 + (delta & 3) + i + t) % 3);   /* rem: 0 NULL, 1 separate, 2 same object as req */
+      mt_desc(" %s(%ld,%ld,%s%d)", kname[o->kind], o->a, o->b, (o->kind == K_NANOSLEEP || o->kind == K_BADSLEEP) ? "rem" : "y", o->k);
     }
     mt_desc("\n");
   }
@@ -224,7 +226,7 @@ void scen_c20(mt_case * c) {
   }
   mt_stat("sleeps", st_sleeps); mt_stat("sleeps_that_polled", st_waited_sleeps); mt_stat("malformed", st_bad); mt_stat("carry_sleeps", st_carry);
   mt_stat("timedlock_timeout", st_tl_to); mt_stat("timedlock_ok", st_tl_ok); mt_stat("timedjoin_timeout", st_tj_to); mt_stat("timedjoin_ok", st_tj_ok); mt_stat("clock_reads", nreads);
-  if (st_waited_sleeps) mt_label("sleep_polled"); if (st_bad) mt_label("malformed_duration"); if (st_carry) mt_label("nsec_carry");
+  if (st_waited_sleeps) mt_label("sleep_polled"); if (st_bad) mt_label("malformed_duration"); if (st_carry) mt_label("nsec_carry"); if (st_rem) mt_label("rem_argument");
   if (st_tl_to) mt_label("timedlock_timeout"); if (st_tl_ok) mt_label("timedlock_ok"); if (st_tj_to) mt_label("timedjoin_timeout"); if (st_tj_ok) mt_label("timedjoin_ok");
   if (Z.W == 1) mt_label("W1");
   mt_nontrivial(st_waited_sleeps > 0 || st_tl_to > 0 || st_tj_to > 0);
